@@ -83,6 +83,9 @@ func recvCorpus() []struct {
 		{0, []rop{dgood(0, []byte("ABC")).among([]int{2}, nil), dgood(1, []byte("DEF")).among([]int{3}, []int{3}), dgood(2, []byte("GHI")).among([]int{4}, nil), dgood(3, []byte("JKL")).among(nil, []int{4}), dgood(4, []byte("MNO")).among([]int{5}, []int{5}), rd(64)}},
 		{0, []rop{bad(0, "REVG!!!!", "corrupt").among([]int{0}, nil), dgood(0, []byte("ABC")).among([]int{0, 1, 2, 3}, []int{3, 0}), rop{kind: 'd', known: true, seq: 5, payload: "QUJD", cls: "wrongseq"}.among([]int{1}, nil), rop{kind: 'd', known: false, seq: 1, payload: "QUJD", cls: "unknownsid"}.among([]int{0}, []int{0}), dgood(1, nil).segmented([]seg{{'T', "REVG"}, {'C', "R0hJ"}}).among([]int{0}, []int{1}), rd(64)}},
 		{8, []rop{dgood(0, []byte("ABCDEF")).among([]int{0}, nil), rop{kind: 'd', known: true, seq: 1, payload: b64([]byte("GHIJKL")), cls: "oversize"}.among([]int{0}, nil), rd(8), dgood(1, []byte("GHIJKL")).among(nil, []int{2}), {kind: 'C', tail: []rop{dgood(2, []byte("mn")).among([]int{0}, nil)}}, rd(8), rd(8), rd(8)}},
+		// stanzas that name the session id of the stream but come from somebody else (another resource
+		// of the peer, its bare address, a third party, the server): not packets of this stream
+		{0, []rop{dgood(0, []byte("ABC")), {kind: 'd', known: true, seq: 1, payload: "ZXZpbA==", cls: "othersender", sender: 3}, {kind: 'd', known: true, seq: 1, payload: "ZXZpbA==", cls: "othersender", sender: 1}, {kind: 'x', sender: 3}, dgood(1, []byte("DEF")), {kind: 'd', known: true, seq: 2, payload: "ZXZpbA==", cls: "othersender", sender: 2}, {kind: 'x', sender: 1}, {kind: 'd', known: true, seq: 2, payload: "ZXZpbA==", cls: "othersender", sender: 4}, {kind: 'x', sender: 4}, dgood(2, []byte("GHI")), rd(64), {kind: 'c'}, rd(8)}},
 		// both directions at once on one connection
 		{0, []rop{{kind: 'w', data: []byte("hello")}, dgood(0, []byte("ABC")), {kind: 'w', data: []byte("wo")}, bad(1, "REVG!!!!", "corrupt"), {kind: 'w', data: []byte("rld!")}, dgood(1, []byte("DEF")), rd(16), {kind: 'C'}}},
 		{8, []rop{dgood(0, []byte("ABCDEF")), {kind: 'w', data: []byte("xy")}, {kind: 'c'}, {kind: 'w', data: []byte("late")}, rd(16), rd(4)}},
@@ -132,6 +135,12 @@ func randRecv(rnd *common.Rand) (int, []rop) {
 				a = "-" + strconv.Itoa(65536-seq)
 			}
 			ops = append(ops, seqAttr(a, "QUJD"))
+		case k == 10 && rnd.Chance(1, 2):
+			if rnd.Chance(1, 3) {
+				ops = append(ops, rop{kind: 'x', sender: 1 + rnd.Intn(4)})
+			} else {
+				ops = append(ops, rop{kind: 'd', known: true, seq: seq, payload: "ZXZpbA==", cls: "othersender", sender: 1 + rnd.Intn(4)})
+			}
 		case k == 10:
 			ops = append(ops, rop{kind: 'd', known: false, seq: seq, payload: "QUJD", cls: "unknownsid"})
 		case k == 11 && !closed && rnd.Chance(1, 2):
@@ -276,6 +285,8 @@ func parseRecvOps(f string) []rop {
 				}
 				ops = append(ops, o)
 			}
+		case "x":
+			ops = append(ops, rop{kind: 'x', sender: 3})
 		case "b":
 			n, _ := strconv.Atoi(p[1])
 			ops = append(ops, rop{kind: 'b', n: n})
